@@ -162,6 +162,7 @@ Proof.
     split; [unfold L1; rewrite Fsk, Frk; exact R1|].
     split.
     { unfold uncached_ok in *. destruct (decl_of p k); auto. rewrite Fca, Frk.
+      destruct R2 as [R2 R2'']. split; auto.
       intros Hc. destruct (R2 Hc) as [Hd Hr]. split; auto. apply st_le_dirty. rewrite <- Hd. exact Fle. }
     split; [|split].
     + intros Hn x w Hx. rewrite Frk in Hx.
@@ -209,7 +210,7 @@ Proof.
   destruct (snd (lvl p (N p)) true top_ctx n s) as [s1 x] eqn:E. inversion Hr; subst s' v. clear Hr.
   destruct (lvl_spec p wfp (N p)) as [_ HR].
   destruct (HR true top_ctx n s [] (N p) s1 x Hn Hn He (Inv_nil 0 (N p) s I) ctx_ok_top Logic.I E)
-    as (I1 & _ & P1 & Hm & Hs).
+    as (I1 & _ & P1 & Hm & Hs & _).
   split; [apply Inv_emit; eapply Inv_nil; eauto|].
   split; [eapply PullRel_trans; [exact P1|apply PullRel_emit]|].
   rewrite !getn_emit. auto.
@@ -232,7 +233,7 @@ Proof.
   destruct (inv_rest _ _ _ _ I j (fun x => x)) as (R1 & R2 & R3 & R4 & _).
   destruct (memob_decl p j Hm) as (cm & e & Hd).
   unfold uncached_ok, GraphInvariant.needs_cur, GraphInvariant.needs_clean in *. rewrite Hd in *.
-  cbn [needs_cur_n needs_clean_n] in *.
+  cbn [needs_cur_n needs_clean_n] in *. destruct R2 as [R2 _].
   assert (Hcn : cache (getn s j) <> None).
   { intros E. destruct (R2 E). congruence. }
   constructor; auto.
@@ -253,7 +254,7 @@ Proof.
   destruct (inv_rest _ _ _ _ I j Hni) as (R1 & R2 & R3 & R4 & _).
   destruct (memob_decl p j Hm) as (cm & e & Hd).
   unfold uncached_ok, GraphInvariant.needs_cur, GraphInvariant.needs_clean in *. rewrite Hd in *.
-  cbn [needs_cur_n needs_clean_n] in *.
+  cbn [needs_cur_n needs_clean_n] in *. destruct R2 as [R2 _].
   assert (Hcn : cache (getn s j) <> None).
   { intros E. destruct (R2 E). congruence. }
   constructor; auto.
@@ -276,7 +277,7 @@ Theorem read_in_run_consistent m c j s stk t s' v :
 Proof.
   intros I C T Hjt Hjl He Hr. unfold read_any in Hr.
   destruct (lvl_spec p wfp (N p)) as [_ HR].
-  destruct (HR m c j s stk t s' v Hjl Hjt He I C T Hr) as (I' & _ & _ & Hm & Hs).
+  destruct (HR m c j s stk t s' v Hjl Hjt He I C T Hr) as (I' & _ & _ & Hm & Hs & _).
   split; auto. split; auto.
   intros Hmj. destruct (Hm Hmj) as [Hc Hca]. split; auto.
   apply (clean_consistent_stk stk t s' I' j Hjt Hmj Hc).
